@@ -178,7 +178,9 @@ pub fn alphabet(quick: bool) -> Vec<[f64; 2]> {
 }
 
 pub fn alphabet_1p(quick: bool) -> Vec<[f64; 2]> {
-    let exps: Vec<i32> = if quick { (-1000..=959).step_by(29).chain([-1000, -60, -30, -10, -9, -8, -7, -3, -2, -1, 0, 1, 2, 10, 959]).collect() } else { (-1000..=959).step_by(2).chain(-12..=12).collect() };
+    let mut exps: Vec<i32> = crate::fx::dense_exps(-1000, 12, quick);
+    exps.extend(if quick { (13..=959).step_by(43).collect::<Vec<i32>>() } else { (13..=959).step_by(2).collect() });
+    exps.push(959);
     let mut v = grid(&exps, quick, 73);
     for h in [2f64.powi(-8), -2f64.powi(-8), 0.75, -0.75, -0.5, 0.5, -1.0, -1.5, -0.9999999999999999, 1.0, 0.0, -0.0, 2f64.powi(960)] {
         v.extend(with_los(h, &[0, 1, 30], &[0, (1u64 << 52) - 1], &[]));
